@@ -20,10 +20,10 @@ theorem good_mark (s : St) (e : Ev) (st : Started) (T T' g : Truth) (hg : Good s
     (hchg : ∀ id, id < s.next → T' name id ≠ T name id → id ∈ t.unc ∨ Q id)
     (hch : ChangesIn s s.next (fun n id => n = name ∧ id < s.next ∧ T' name id ≠ T name id) T T')
     (hmask : s.tag = true → ∀ id, (id ∈ t.unc ∨ Q id) → id ∈ (step s e st).1.rst)
-    (hmr : ∀ jn snap held, s.jTag = some (jn, snap, held) → Live s jn snap →
-        (name ∈ snap.mainT → F254 snap) ∧ (name ∈ snap.subT → snap.sfeat ≠ 0))
-    (hjt : ∀ jn snap held, s.jTag = some (jn, snap, held) → C06.Edits e jn → Live (step s e st).1 jn snap →
-        Live s jn snap ∧ ∀ id, id < s.next → T' jn id = T jn id) :
+    (hself : ∃ t', sget (step s e st).1.tags name = some t' ∧ t'.unc = t.unc ∧ Attrs t' = Attrs t)
+    (hjt : ∀ jn snap held, s.jTag = some (jn, snap, held) → ∀ t0, sget s.tags name = some t0 → t0.gen = snap.gen →
+        (∃ t', sget (step s e st).1.tags name = some t' ∧ t'.defn = snap.defn) →
+        t0.defn = snap.defn ∧ ∀ id, id < s.next → T' name id = T name id) :
     C06.Inv (step s e st).1 T' ∧
     (∀ jn' snap held', s.jTag = some (jn', snap, held') → JobInv (step s e st).1 T' g) := by
   have hr := hg.reach
@@ -91,19 +91,28 @@ theorem good_mark (s : St) (e : Ev) (st : Started) (T T' g : Truth) (hg : Good s
       exact hmat t' h' id hid hnu
   · intro jn' snap held' hjt'
     have htag : s.tag = true := hr.jobsWF.1.2 (by rw [hjt']; rfl)
-    by_cases hE : C06.Edits e jn'
-    · exact job_edit_self s e st T T' g hg hne hnq hni herr jn' snap held' hjt' hE (hjt jn' snap held' hjt' hE)
-    · have hn : jn' ≠ name := fun h => hE ((hEd jn').2 h.symm)
-      refine jobInv_mono s e st T T' g hr hg.job hne jn' snap held' hjt' ?_
-        (h1_of_not_edits s e st jn' snap hE) ?_
-      · intro id h1 h2
-        rw [hnext] at h2; omega
-      · intro ot hot hd _ _ _ id hid hT
-        have hrefs := hr.factsOK.1 jn' snap held' ot hjt' hot hd
+    obtain ⟨hm1, hm2⟩ : (name ∈ snap.mainT → F254 snap) ∧ (name ∈ snap.subT → snap.sfeat ≠ 0) := by
+      have := markRefOK_of_feat s (.markAdd name []) hg.feats
+      exact this jn' snap held' hjt'
+    refine jobInv_mono s e st T T' g hr hg.job hne jn' snap held' hjt' ?_ ?_
+    · intro id h1 h2
+      rw [hnext] at h2; omega
+    · intro n' ot' hot' hg' hd'
+      by_cases hn : name = n'
+      · subst hn
+        obtain ⟨t2, h2, _, ha2⟩ := hself
+        rw [hot'] at h2; cases h2
+        have hgen : t.gen = snap.gen := by rw [← (attrs_eq ha2).2.2.2.2]; exact hg'
+        obtain ⟨hd0, hsame⟩ := hjt jn' snap held' hjt' t ht hgen ⟨ot', hot', hd'⟩
+        exact Or.inr ⟨name, t, ht, hgen, hd0, ha2, fun _ id hid hT => absurd (hsame id hid) hT⟩
+      · have hE : ¬ C06.Edits e n' := fun h => hn ((hEd n').1 h)
+        obtain ⟨ot, hot, hg0, hd, ha⟩ := pre_of_not_edits s e st n' snap ot' hE hot' hg' hd'
+        refine Or.inr ⟨n', ot, hot, hg0, hd, ha, ?_⟩
+        intro hA id hid hT
+        obtain ⟨r1, r2, _⟩ := attrs_eq hA
         have hlt : id < s.all := by omega
-        obtain ⟨hm1, hm2⟩ := hmr jn' snap held' hjt' ⟨ot, hot, hd⟩
-        refine job_cover hot hrefs.1 hrefs.2 (hch jn' ot hot id hid hT) ?_ ?_ ?_ ?_
-        · intro hB; exact absurd hB.1 hn
+        refine job_cover hot r1 r2 (hch n' ot hot id hid hT) ?_ ?_ ?_ ?_
+        · intro hB; exact absurd hB.1.symm hn
         · intro r hrm hd'
           by_cases hrn : r = name
           · subst hrn
@@ -180,10 +189,9 @@ theorem good_markAdd (s : St) (name : String) (ids : List Nat) (st : Started) (T
     (t : Tag) (ht : sget s.tags name = some t)
     (hT1 : ∀ id, id < s.next → T' name id = (T name id || decide (id ∈ ids ∧ id ∉ t.mat)))
     (hch : ChangesIn s s.next (fun n id => n = name ∧ id < s.next ∧ T' name id ≠ T name id) T T')
-    (hmr : ∀ jn snap held, s.jTag = some (jn, snap, held) → Live s jn snap →
-        (name ∈ snap.mainT → F254 snap) ∧ (name ∈ snap.subT → snap.sfeat ≠ 0))
-    (hjt : ∀ jn snap held, s.jTag = some (jn, snap, held) → C06.Edits (.markAdd name ids) jn →
-        Live (step s (.markAdd name ids) st).1 jn snap → Live s jn snap ∧ ∀ id, id < s.next → T' jn id = T jn id) :
+    (hjt : ∀ jn snap held, s.jTag = some (jn, snap, held) → ∀ t0, sget s.tags name = some t0 → t0.gen = snap.gen →
+        (∃ t', sget (step s (.markAdd name ids) st).1.tags name = some t' ∧ t'.defn = snap.defn) →
+        t0.defn = snap.defn ∧ ∀ id, id < s.next → T' name id = T name id) :
     C06.Inv (step s (.markAdd name ids) st).1 T' ∧
     (∀ jn' snap held', s.jTag = some (jn', snap, held') → JobInv (step s (.markAdd name ids) st).1 T' g) := by
   obtain ⟨hmk, hlt, hsame⟩ := markAdd_acc s name ids st hok hne
@@ -192,7 +200,7 @@ theorem good_markAdd (s : St) (name : String) (ids : List Nat) (st : Started) (T
     (fun n => Iff.rfl) (fun n r h => by cases h) (fun n d f h => by cases h) (fun p u c a b d h => by cases h)
     (by rw [hok]; intro h; cases h) ht hmk h1all h1tags hall hnext hvia (attrs_muAdd t s ids)
     (mem_muAdd_unc t s ids) (fun id h => hlt id h.1) ?_ ?_ hch
-    (fun htag => markAdd_masks s name ids st t hok hne ht htag) hmr hjt
+    (fun htag => markAdd_masks s name ids st t hok hne ht htag) (step_markAdd_self s name ids st t ht) hjt
   · intro t' h' id hid hnu
     obtain ⟨t2, h2, hu, _⟩ := step_markAdd_self s name ids st t ht
     rw [h'] at h2; cases h2
@@ -221,10 +229,9 @@ theorem good_markDel (s : St) (name : String) (ids : List Nat) (st : Started) (T
     (t : Tag) (ht : sget s.tags name = some t)
     (hT1 : ∀ id, id < s.next → (T' name id = true ↔ (id ∈ t.mat ∧ id ∉ ids)))
     (hch : ChangesIn s s.next (fun n id => n = name ∧ id < s.next ∧ T' name id ≠ T name id) T T')
-    (hmr : ∀ jn snap held, s.jTag = some (jn, snap, held) → Live s jn snap →
-        (name ∈ snap.mainT → F254 snap) ∧ (name ∈ snap.subT → snap.sfeat ≠ 0))
-    (hjt : ∀ jn snap held, s.jTag = some (jn, snap, held) → C06.Edits (.markDel name ids) jn →
-        Live (step s (.markDel name ids) st).1 jn snap → Live s jn snap ∧ ∀ id, id < s.next → T' jn id = T jn id) :
+    (hjt : ∀ jn snap held, s.jTag = some (jn, snap, held) → ∀ t0, sget s.tags name = some t0 → t0.gen = snap.gen →
+        (∃ t', sget (step s (.markDel name ids) st).1.tags name = some t' ∧ t'.defn = snap.defn) →
+        t0.defn = snap.defn ∧ ∀ id, id < s.next → T' name id = T name id) :
     C06.Inv (step s (.markDel name ids) st).1 T' ∧
     (∀ jn' snap held', s.jTag = some (jn', snap, held') → JobInv (step s (.markDel name ids) st).1 T' g) := by
   obtain ⟨hmk, hlt, hsame⟩ := markDel_acc s name ids st hok hne
@@ -233,7 +240,7 @@ theorem good_markDel (s : St) (name : String) (ids : List Nat) (st : Started) (T
     (fun n => Iff.rfl) (fun n r h => by cases h) (fun n d f h => by cases h) (fun p u c a b d h => by cases h)
     (by rw [hok]; intro h; cases h) ht hmk h1all h1tags hall hnext hvia (attrs_muDel t ids)
     (mem_muDel_unc t ids) (fun id h => hlt id h.1) ?_ ?_ hch
-    (fun htag => markDel_masks s name ids st t hok hne ht htag) hmr hjt
+    (fun htag => markDel_masks s name ids st t hok hne ht htag) (step_markDel_self s name ids st t ht) hjt
   · intro t' h' id hid _
     obtain ⟨t3, h3, hm3⟩ := C06.mark_update_exact s name t [] ids hg.reach.tagsWF ht
     rw [hsame] at h'
